@@ -236,6 +236,14 @@ func limiterMain(s *simrt.Sim, info *harness.RunInfo) {
 	if useNext {
 		cfg.Next = func(c fiber.Ctx) bool { return c.Get("X-Skip") == "1" }
 	}
+	customReject := s.Chance(250)
+	if customReject {
+		// the application's own answer to a rejected request (still a 429; Retry-After comes from the middleware)
+		cfg.LimitReached = func(c fiber.Ctx) error {
+			simrt.Yield(203)
+			return c.Status(fiber.StatusTooManyRequests).JSON(fiber.Map{"error": "slow down"})
+		}
+	}
 	var sim *harness.SimStorage
 	var keyGuard *harness.KeyGuard
 	switch storageKind {
@@ -253,8 +261,8 @@ func limiterMain(s *simrt.Sim, info *harness.RunInfo) {
 		cfg.Storage = keyGuard
 	}
 	sname := [...]string{"memory", "sim-copy", "sim-alias", "storage-memory"}[storageKind]
-	cfgLine := fmt.Sprintf("sliding=%v max=%d E=%d dynMax=%v keys=%d next=%v skipFailed=%v skipOK=%v storage=%s clients=%d preempt=%d",
-		sliding, cfgMax, E, dynMax, nkeys, useNext, skipFailed, skipOK, sname, nclients, preempt)
+	cfgLine := fmt.Sprintf("sliding=%v max=%d E=%d dynMax=%v keys=%d next=%v skipFailed=%v skipOK=%v storage=%s clients=%d preempt=%d customReject=%v",
+		sliding, cfgMax, E, dynMax, nkeys, useNext, skipFailed, skipOK, sname, nclients, preempt, customReject)
 	s.Logf("cfg %s", cfgLine)
 
 	var ops []*limOp
